@@ -20,6 +20,8 @@ EXPECTED = {'equal': 'Equal', 'different': 'Different', 'player_raises': 'Equali
 
 def expected_duration(case):
     t = case.get('timeout', 1.0)
+    if case.get('tighten_after'):
+        t = case['tighten_after']['timeout']
     n_slow = sum(1 for b in case['behaviours'] if b in ('hang', 'late', 'hang_sigterm_ignored'))
     n_exit = sum(1 for b in case['behaviours'] if b in ('exit', 'die_idle'))
     if case.get('slow_start'):
